@@ -430,8 +430,10 @@ func (repo *Repository) ProcessHeader(ctx context.Context, header *wire.BlockHea
 				logger.String("new_work", longest.Last().AccumulatedWork.Text(16)),
 			}, "New longest header branch")
 
+			// The header is already part of the tree so the tip must be switched even when the
+			// new headers can't be announced.
 			if err := repo.sendBranchUpdate(longest, repo.longest); err != nil {
-				return errors.Wrap(err, "send branch update")
+				logger.Error(ctx, "Failed to send branch update : %s", err)
 			}
 
 			repo.longest = longest
@@ -457,8 +459,10 @@ func (repo *Repository) ProcessHeader(ctx context.Context, header *wire.BlockHea
 				logger.String("new_work", longest.Last().AccumulatedWork.Text(16)),
 			}, "New longest header branch")
 
+			// The header is already part of the tree so the tip must be switched even when the
+			// new headers can't be announced.
 			if err := repo.sendBranchUpdate(longest, repo.longest); err != nil {
-				return errors.Wrap(err, "send branch update")
+				logger.Error(ctx, "Failed to send branch update : %s", err)
 			}
 
 			headersSent = true
